@@ -182,6 +182,8 @@ Proof.
     apply presR_bind; [apply presR_declare_fault | intros _; apply presR_ret].
 Qed.
 
+Local Opaque init_vfs_handling.
+
 Lemma metadata_sets_complete_only_for_md_only : forall h cl ck sz names msgs s s' r,
   handle_metadata_packet h cl ck sz names msgs s = (s', r) -> d_state s' = ST_BUSY ->
   f_deliv (p_fin (d_p s')) <> f_deliv (p_fin (d_p s)) -> names = None /\ p_md_only (d_p s') = true.
